@@ -130,6 +130,18 @@ NOTES = {
     ("seed6", "C36"): "caught after programs with a UOD command that raises inside the command manager's tick were added to the C16/C36 corpus",
     ("seed6", "C37"): "caught after every second connection listed the dead-man-switch topic last in its subscribe call",
     ("seed6", "C38"): "caught after the third BFS with registrations from an engine of another version (with / without the ignore flag) was added",
+    ("seed7", "C01"): "caught after edits that carry an explicit version number (equal to / one above the engine's) on a method at version 3 were added",
+    ("seed7", "C02"): "caught after the scenario 'macro whose body holds a Watch, called two or three times' (shared with C41) was added",
+    ("seed7", "C03"): "caught after the independent reference clock for thresholds inside blocks was added",
+    ("seed7", "C09"): "caught after seed histories with the run on hold and paused (both orders) were added",
+    ("seed7", "C18"): "caught after a comment that contains a '#' was added to the line product",
+    ("seed7", "C20"): "caught after 'Simulate off' with a short undefined tag name was added",
+    ("seed7", "C22"): "caught after the lists the UOD derives from a pattern (command description, entry units of a process value) were added",
+    ("seed7", "C24"): "caught after the fourth exploration was added (write outside the batch fails, the flush after the next batch fails too, then only unchanged batches)",
+    ("seed7", "C31"): "caught after cases in which all saves come from the same user were added",
+    ("seed7", "C36"): "caught after programs that simulate a tag to another value and then to its real value were added to the C16/C36 corpus",
+    ("seed7", "C38"): "first ended in a harness error (the channel fake had no id); caught after channels got ids and a refused websocket was disconnected like a real one",
+    ("seed7", "C41"): "caught after the scenario 'macro whose body holds a Watch, called two or three times' with X true / false / true-then-false was added",
 }
 
 
